@@ -9,12 +9,14 @@ def main(tier):
     st = 'q' if quick else 't'
     for w in (['w1', 'w3', 'w4'] if quick else ['w1', 'w2', 'w3', 'w4']):
         c.run_family('plain', 'c03.py', 'pack', args=['--prop=C17', '--set=' + st, '--wrap=' + w], per_case_timeout=60, chunk=2 if quick else 4, nsamples=1)
+    for w in ['w1', 'w3']:
+        c.run_family('plain', 'c03.py', 'shape', hi=73, args=['--prop=C17', '--set=' + st, '--wrap=' + w], per_case_timeout=30, chunk=6, nsamples=1)
     c.run_family('plain', 'c03.py', 'invalid', args=['--prop=C17'], per_case_timeout=30, chunk=4)
     c.run_family('plain', 'c05.py', 'names', args=['--n=2'] if quick else ['--n=3', '--edges=1'], per_case_timeout=30, chunk=30, nsamples=1)
     c.run_family('plain', 'c20.py', 'ext', args=['--prop=C17', '--set=' + st], per_case_timeout=60, nsamples=1)
     return c.finish(
         rule='every valid analysed model of the C03 enumeration (expression shapes packed 32 per model, wrappers w1/w3/w4: algebraic, ODE, NLA; every helper-requiring '
-             'operator alone and nested in every operand position), every external-variable model of the C20 enumeration, a family of dependency-graph models (algebraic, ODE, NLA, DAE) in which one class - each variable and the VOI in turn - carries a name, units name and component name longer than everything else in the model, and a list of missing/invalid/non-valid-typed models; '
+             'operator nested in every operand position, and every operator ALONE in a model of its own), every external-variable model of the C20 enumeration, a family of dependency-graph models (algebraic, ODE, NLA, DAE) in which one class - each variable and the VOI in turn - carries a name, units name and component name longer than everything else in the model, and a list of missing/invalid/non-valid-typed models; '
              'judged = shapes (or models) whose generated C was compiled with -Wall -Wextra -Werror (only unused-parameter/-variable allowed), loaded, and whose counts, '
              'info tables, helper functions and declared-vs-defined functions were compared with the AnalyserModel; Python code exec\'d and compared likewise',
         assumptions=[
